@@ -36,6 +36,7 @@ var fsInfoType types.Type = types.NewNamed(types.NewTypeName(0, nil, "gosym.file
 
 type fsInfo struct {
 	name  string
+	sizeT *Term // symbolic size (sparse file of symbolic length), overrides size
 	size  int
 	mtime Value
 	isDir bool
@@ -47,6 +48,9 @@ func (fi *fsInfo) callMethod(ex *Exec, name string, args []Value) Value {
 	case "Name":
 		return fi.name
 	case "Size":
+		if fi.sizeT != nil {
+			return fi.sizeT
+		}
 		return K(64, uint64(fi.size))
 	case "ModTime":
 		if fi.mtime == nil {
@@ -79,7 +83,7 @@ func (ex *Exec) infoOf(n *fsNode, path string) iface {
 	if n.vsize > size {
 		size = n.vsize
 	}
-	return iface{t: fsInfoType, v: &fsInfo{name: baseName(path), size: size, mtime: n.mtime, isDir: n.isDir, mode: mode}}
+	return iface{t: fsInfoType, v: &fsInfo{name: baseName(path), size: size, sizeT: n.vsizeT, mtime: n.mtime, isDir: n.isDir, mode: mode}}
 }
 
 func (ex *Exec) handles() map[*Value]*fsHandle {
